@@ -14,6 +14,7 @@ CHECKS = {
         "runs": [
             {"pkg": "wire", "run": "^TestC05(Raw|JSON|PB|HTTP|WsJSON|WsPB)$", "quick": 300, "thorough": 24000, "shards_thorough": 8},
             {"pkg": "wire", "run": "^TestC05KnownProbes$", "quick": 1, "thorough": 1},
+            {"pkg": "core", "run": "^TestC05WebsocketChunks$", "quick": 300, "thorough": 10000, "shards_thorough": 4},
             {"pkg": "thriftw", "run": "^TestC05Thrift(Binary|Struct)$", "quick": 300, "thorough": 24000, "shards_thorough": 4},
         ],
     },
